@@ -127,6 +127,21 @@ func corpus() []caseT {
 		"sync", "get 2", "get 3", "browse -", "flags 1 4294967295", "flags 4 6", "flags 5 2147483650", "browse 4:2147483648,1:4294967291",
 		"defrag 1", "get 1", "get 5", "close", "open 0 0 "+defOpts, "browse -", "get 3", "flags 3 24", "browse -", "put 3 ff", "sync", "close",
 		"open 1 0 "+defOpts, "get 2", "flags 2 4294967295", "del 4", "close", "open 0 1 "+defOpts, "get 1", "get 2", "get 3", "get 4", "get 5")
+	// walk answers that carry BR_ABORT together with other bits (boundaries of the answer word: BR_ABORT alone, with each
+	// browsing flag, with all of them, all ones; for one record, for every record — the browse then stops at whichever
+	// record Go's map order presents first —, for a record that is absent or hidden; Browse and BrowseAll; records in
+	// memory, NO_CACHE records on disk, records not loaded after a lazy open); each followed by observations
+	add("abort-answer-words", true,
+		"open 0 1 "+defOpts, "put 1 aa", "put 2 bbbb", "put 3 "+hexOf(pat(30, 3)), "put 4 dd", "browse 1:4,2:4,3:4,4:4", "browse -",
+		"browse 1:5,2:5,3:5,4:5", "browse -", "browseall 1:20,2:20,3:20,4:20", "browse -", "browse 2:5", "browse -", "browse 9:4,2:21", "browse -",
+		"sync", "browse 1:6,2:6,3:6,4:6", "get 1", "browse 3:12,1:2", "browse 1:4294967295,2:4294967295,3:4294967295,4:4294967295", "browse -",
+		"browseall 4:31", "browseall 1:4,2:17,3:17,4:17", "browse -", "defrag 1", "close", "open 0 0 "+defOpts, "browse -", "browseall -")
+	add("abort-answer-lazy-and-nocache", true,
+		"open 0 1 "+defOpts, "putext 1 "+hexOf(pat(40, 1))+" 2", "putext 2 "+hexOf(pat(33, 2))+" 0", "putext 3 cc 1", "putext 4 "+hexOf(pat(26, 4))+" 3", "close",
+		"open 0 0 "+defOpts, "browse 1:4,2:4,4:4", "browse 2:6,1:14", "browseall 3:20,4:20,1:20,2:20", "browse -", "sync", "close",
+		"open 0 0 "+defOpts, "browseall 1:7,2:7,3:7,4:7", "browseall 1:7,2:7,3:7,4:7", "browseall 1:7,2:7,3:7,4:7", "browseall 1:7,2:7,3:7,4:7", "browse -",
+		"put 2 ee", "browse 2:6", "sync", "browse 2:5,1:5", "defrag 1", "close", "open 1 1 "+defOpts, "browse -", "browseall 1:12", "close",
+		"open 0 1 "+defOpts, "browse -", "get 1", "get 2", "get 3", "get 4")
 	// a lazy open followed DIRECTLY by Get / Put / Del / ApplyFlags / Sync / Defrag / Close on records that are not in
 	// memory (in the sparse run nothing loads them before)
 	add("lazy-open-then-direct-operations", true,
@@ -215,7 +230,43 @@ func genCase(g *vlib.Rng, idx int) caseT {
 		if sparse && i > 0 && g.Chance(1, 9) {
 			lines = append(lines, "peek")
 		}
-		switch x := g.Intn(112); {
+		switch x := g.Intn(116); {
+		case x >= 112:
+			// shape: the walk function answers BR_ABORT together with a flag change (for one record, or for whichever
+			// record comes first); what it asked for is then observed: browsability by the next Browse, the cached copy
+			// by the state line / a Get, the persisted flag word after sync / defrag / close and a reopen
+			r.Hit("shape:abort-with-flag-change-then-observe")
+			if g.Bool() {
+				for _, k := range keys {
+					if g.Bool() {
+						lines = append(lines, fmt.Sprintf("putext %d %s %d", k, hexOf(genValue(g, &big)), g.Pick(0, 0, 1, 2, 3)))
+					}
+				}
+			}
+			if g.Bool() {
+				lines = append(lines, "sync")
+			}
+			var ps []string
+			seen := map[uint64]bool{}
+			for _, k := range keys {
+				if !seen[k] && (len(ps) == 0 || g.Chance(2, 3)) {
+					seen[k] = true
+					ps = append(ps, fmt.Sprintf("%d:%d", k, abortWord(g)))
+				}
+			}
+			lines = append(lines, []string{"browse ", "browse ", "browse ", "browseall "}[g.Intn(4)]+strings.Join(ps, ","))
+			switch g.Intn(5) {
+			case 0:
+				lines = append(lines, "browse -")
+			case 1:
+				lines = append(lines, "sync", "browse -", "close", genOpen(g), "browse -")
+			case 2:
+				lines = append(lines, "flags "+key()+" 0", "defrag 1", "close", genOpen(g), "browse -")
+			case 3:
+				lines = append(lines, "browse "+genWalk(g, keys), "browse -", "get "+key())
+			case 4:
+				lines = append(lines, "put "+key()+" "+hexOf(genValue(g, &big)), "browse -", "close", genOpen(g), "browseall -", "browse -")
+			}
 		case x >= 108:
 			// the process dies inside the previous request; the history continues after NewDBExt on what is left
 			r.Hit("shape:crash-and-continue")
@@ -275,20 +326,11 @@ func genCase(g *vlib.Rng, idx int) caseT {
 		case x < 63:
 			lines = append(lines, "get "+key())
 		case x < 71:
-			w := "-"
-			if g.Bool() {
-				var ps []string
-				seen := map[string]bool{}
-				for j := 0; j < 1+g.Intn(2); j++ {
-					k := key()
-					if !seen[k] {
-						seen[k] = true
-						ps = append(ps, fmt.Sprintf("%s:%d", k, genFlags(g, true)))
-					}
-				}
-				w = strings.Join(ps, ",")
+			op := "browse"
+			if g.Chance(1, 4) {
+				op = "browseall"
 			}
-			lines = append(lines, "browse "+w)
+			lines = append(lines, op+" "+genWalk(g, keys))
 		case x < 76:
 			lines = append(lines, fmt.Sprintf("flags %s %d", key(), genFlags(g, false)))
 		case x < 82:
@@ -332,6 +374,47 @@ func genFlags(g *vlib.Rng, walk bool) uint32 {
 		f &^= 4
 	}
 	return f
+}
+
+// abortWord: a walk answer that carries BR_ABORT, mostly together with bits that change the record's flags.
+func abortWord(g *vlib.Rng) uint32 {
+	f := genFlags(g, true) | 4
+	if f&27 != 0 {
+		r.Hit("walk:BR_ABORT-with-flag-change")
+	} else {
+		r.Hit("walk:BR_ABORT-bare")
+	}
+	return f
+}
+
+// genWalk: a walk function as k:answer,… over some of the case's keys ("-" = answers 0 everywhere). One walk in three
+// answers BR_ABORT somewhere — for one key, for several, or for all listed keys (the browse then stops at whichever
+// record Go's map iteration presents first) — in any combination with the flag-changing bits.
+func genWalk(g *vlib.Rng, keys []uint64) string {
+	if g.Chance(1, 3) {
+		return "-"
+	}
+	n := 1 + g.Intn(2)
+	abort := g.Intn(3) == 0
+	if abort && g.Bool() {
+		n = 1 + g.Intn(len(keys))
+	}
+	allAbort := abort && g.Chance(1, 3)
+	var ps []string
+	seen := map[uint64]bool{}
+	for j := 0; j < n; j++ {
+		k := keys[g.Intn(len(keys))]
+		if seen[k] {
+			continue
+		}
+		seen[k] = true
+		f := genFlags(g, true)
+		if abort && (allAbort || len(ps) == 0 || g.Chance(1, 3)) {
+			f = abortWord(g)
+		}
+		ps = append(ps, fmt.Sprintf("%d:%d", k, f))
+	}
+	return strings.Join(ps, ",")
 }
 
 // BR_ABORT: the walk function aborts at the first record — checked against the Go map only.
